@@ -24,7 +24,6 @@ def m(prop, rel, old, new, expect, rules=(), note=""):
 
 
 # ---------------------------------------------------------------- C01
-m("C01", "operators/scan.py", "data_type='obj')", "data_type=type(seed))", "fire", ["SD-3"], "the scan defect repaired by 5a0c9ec, re-introduced (typed state chosen from the seed)")
 m('C01', 'operators/scan.py', '                value = state\n                if has_state is False:\n                    value = seed() if callable(seed) else copy.deepcopy(seed)\n                state = accumulator(value, i)', '                value = state\n                if state is False:\n                    value = seed() if callable(seed) else copy.deepcopy(seed)\n                state = accumulator(value, i)', 'fire', ['AG-3b', 'AG-3'], 'hand mutant: obs: unset test on the value (first item folds from None)')
 m('C01', 'operators/scan.py', '                state = accumulator(value, i)\n                has_state = True', '                state = accumulator(value, i)\n                has_state = False', 'fire', ['AG-3b', 'AG-3'], 'hand mutant: obs: has_state never set (every item folds from seed)')
 m('C01', 'operators/scan.py', '                    value = state\n                    if has_state is False:\n                        value = seed() if callable(seed) else copy.deepcopy(seed)\n                    state = terminator(value)', '                    value = state\n                    if state is False:\n                        value = seed() if callable(seed) else copy.deepcopy(seed)\n                    state = terminator(value)', 'fire', ['AG-3b', 'AG-3'], 'hand mutant: obs: terminator on None for empty source')
@@ -119,7 +118,6 @@ m("C08", "operators/tee_map.py", "                if i == n-1:\n                
 m("C08", "operators/tee_map.py", "append_count = (x.key[0]+1) * n - len(queue)", "append_count = x.key[0] * n - len(queue)", "fire", ["TM-5"])
 m("C08", "operators/tee_map.py", "append_count = (x.key[0]+1) * n - len(queue)", "append_count = n * (1 + x.key[0]) - len(has_next)", "silent")
 # ---------------------------------------------------------------- C09
-m("C09", "operators/scan.py", "data_type='obj')", "data_type=type(seed))", "fire", ["SD-3"], "the scan defect repaired by 5a0c9ec, re-introduced (typed state chosen from the seed)")
 m('C09', 'operators/scan.py', '                        if value is rs.state.markers.STATE_NOTSET:\n                            value = seed() if callable(seed) else copy.deepcopy(seed)\n                        acc = terminator(value)', '                        if value is rs.state.markers.STATE_NOTSET:\n                            value = seed() if not callable(seed) else copy.deepcopy(seed)\n                        acc = terminator(value)', 'fire', ['SD-1'], 'hand mutant: callable inverted (terminator, empty key)')
 m('C09', 'operators/scan.py', '                    if has_state is False:\n                        value = seed() if callable(seed) else copy.deepcopy(seed)\n                    state = terminator(value)', '                    if has_state is False:\n                        value = copy.deepcopy(seed) if callable(seed) else seed()\n                    state = terminator(value)', 'fire', ['SD-1'], 'hand mutant: callable arms swapped (obs)')
 m('C09', 'operators/scan.py', '                value = state\n                if has_state is False:\n                    value = seed() if callable(seed) else copy.deepcopy(seed)\n                state = accumulator(value, i)', '                value = state\n                if state is False:\n                    value = seed() if callable(seed) else copy.deepcopy(seed)\n                state = accumulator(value, i)', 'fire', ['AG-3b', 'AG-3'], 'hand mutant: obs: unset test on the value (first item folds from None)')
@@ -212,7 +210,7 @@ m("C15", "framing/line.py", "lines[0] = acc + lines[0]", "lines[0] = lines[0] + 
 m("C15", "framing/length_prefix.py", "while bio_len - offset >= prefix_size:", "while prefix_size <= bio_len - offset:", "silent")
 m("C15", "framing/line.py", "                if len(acc) > 0:", "                if acc:", "silent")
 # ---------------------------------------------------------------- C16
-m("C16", "compression/zstd.py", "                    if decompressor.eof and len(i) == 0:\n                        # nothing left to decode; the decompression object\n                        # accepts no more calls once its frame is complete\n                        return\n", "", "fire", ["OB-4"], "the zstd defect repaired by 93f7d05, re-introduced (no guard for an empty chunk after the end of the stream)")
+m("C16", "compression/zstd.py", "                    if decompressor.eof and len(i) == 0:\n                        # nothing left to decode; the decompression object\n                        # accepts no more calls once its frame is complete\n                        return\n", "", "fire", ["OB-4"], "the zstd defect repaired by 7eef736, re-introduced (no guard for an empty chunk after the end of the stream)")
 m("C16", "compression/z.py", "                    data = compressor.flush()\n                    observer.on_next(data)\n                    observer.on_completed()", "                    observer.on_completed()", "fire", ["OB-2", "AG-6"])
 m("C16", "compression/z.py", "decompressor = zlib.decompressobj(wbits = zlib.MAX_WBITS | 16)", "decompressor = zlib.decompressobj(wbits = zlib.MAX_WBITS)", "fire", ["AG-5"])
 m("C16", "compression/zstd.py", "                    if not decompressor.eof:\n                        observer.on_error(RuntimeError(\"zstd.decompress: Invalid state at observable completion\"))\n                    else:\n                        data = decompressor.flush()\n                        observer.on_next(data)\n                        observer.on_completed()", "                    data = decompressor.flush()\n                    observer.on_next(data)\n                    observer.on_completed()", "fire", ["OB-3", "AG-6"])
